@@ -21,6 +21,7 @@
 #include <covfie/core/backend/transformer/strided.hpp>
 #include <covfie/core/field.hpp>
 #include <covfie/core/parameter_pack.hpp>
+#include <cmath>
 #include <cstring>
 #include <iostream>
 #include <memory>
@@ -45,7 +46,11 @@ template <typename T> u64 bits(T v) {
 }
 struct In { std::vector<u64> cfg, cells, coord; };
 // a coordinate component that int, unsigned (when >= 0), long and double all represent exactly
-template <typename T> bool small_int(T x) { return x >= static_cast<T>(-30000) * (std::is_signed_v<T> || std::is_floating_point_v<T> ? 1 : 0) && x <= static_cast<T>(30000) && static_cast<T>(static_cast<long>(x)) == x; }
+// (not -0.0: an integer argument cannot carry the sign of zero)
+template <typename T> bool small_int(T x) {
+  if constexpr (std::is_floating_point_v<T>) { if (x == T(0) && std::signbit(x)) return false; }
+  return x >= static_cast<T>(-30000) * (std::is_signed_v<T> || std::is_floating_point_v<T> ? 1 : 0) && x <= static_cast<T>(30000) && static_cast<T>(static_cast<long>(x)) == x;
+}
 
 template <typename T, std::size_t M>
 typename backend::array<vector::vector_d<T, M>>::owning_data_t mkArr(const std::vector<u64> & cells) {
